@@ -49,9 +49,11 @@ def attribute(pl: cxx.Pipeline, failing: list[tuple[gen_prog.Prog, dict[str, Any
 		ok = lambda x: x['status'] in ('agree', 'vacuous')  # noqa: E731
 		culprits = [k for k, (_, rr) in mine.items() if k != '*' and not ok(rr)] if ok(full) else []
 		if ok(full) and not culprits:
-			# no single class suffices alone: the failure needs a combination; name the combination
+			# no single class suffices alone: the failure needs a combination. Necessary members = classes whose repair alone cures it.
 			present = [k for k in mine if k != '*']
-			culprits = ['combo:' + '+'.join(sorted(present))] if present else []
+			alone = pl.check_many([gen_prog.to_dict(gen_prog.repaired(p, set(present) - {k})) for k in present], per_unit=1) if present else []
+			necessary = [k for k, rr in zip(present, alone) if ok(rr)]
+			culprits = necessary or (['combo:' + '+'.join(sorted(present))] if present else [])
 		details = {'present_classes': [k for k in mine if k != '*'], 'all_repaired': _short(full), 'all_repaired_source': full_prog['source'],
 			'per_class': {k: rr['status'] for k, (_, rr) in mine.items() if k != '*'}}
 		out.append((p, r, culprits, details))
@@ -223,6 +225,16 @@ def search_programs(ctx: Ctx, pl: cxx.Pipeline) -> SearchResult:
 		elif len(res.samples) < 2 and r['status'] == 'agree':
 			res.samples.append({'source': d['source'][:600], 'compared_calls': r['compared']})
 	hist['calls-compared'] = compared
+
+	# 2b. probe programs: one construct tranp is known to mishandle per program, randomised operands, own finding key
+	probes = [gen_prog.probe_program(random.Random(rng.random())) for _ in range(ctx.scale(5, 45))]
+	for (key, d), r in zip(probes, pl.check_many([d for _, d in probes], per_unit=1) if probes else []):
+		res.cases += 1
+		seen.add(d['source'])
+		hist[f"probe:{key}:{r['status']}"] += 1
+		if r['status'] in ('mismatch', 'rejected', 'cxx-rejected'):
+			res.findings.append(Finding(key=key, what=gen_prog.PROBE_WHAT[key] + f" [probe program: {r['status']}]",
+				replay={'key': key, 'program': d, 'result': _short(r), 'emitted': r.get('emitted')}))
 
 	# 3. attribute every failing program to defect classes; shrink what stays unexplained
 	unexplained = 0
